@@ -14,7 +14,8 @@ RULE = ('Hypothesis-generated frame scripts over 2-4 recording WorldHandle subcl
         'dispatching disabled as WorldHandle.load does, a world with recording processors before/after, '
         'OnUpdateProcessor, a scripted actor processor, a CoroutineProcessor running a scripted coroutine, and a '
         'listener component for on_add, on_world_load, on_switch_in, on_switch_out, on_update, probe; every other '
-        'handle loads a World subclass whose instances are falsy) run by a '
+        'handle loads a World subclass whose instances are falsy; or all handles load a World subclass with value '
+        'equality - equal-but-distinct worlds) run by a '
         'SimpleLoop on a generated clock: per frame one of nothing / switch(h, clear_current, clear_next) / raise '
         'SwitchWorld(h, ...) / dispatch a probe to another (possibly left) world, issued from a processor, from '
         'an on_update callback or from a coroutine; targets include the current handle, cached and not yet '
@@ -57,7 +58,10 @@ def decode_frame(p):
 
 def strategy():
     fr = st.integers(0, 8 * 4 * 4 * 4 * 3 * 2 - 1).map(decode_frame)
-    return st.fixed_dictionaries({'handles': st.integers(2, 4), 'frames': worldops.chunked(fr, 16, chunk=4)})
+    return st.fixed_dictionaries({'handles': st.integers(2, 4), 'frames': worldops.chunked(fr, 16, chunk=4),
+                                  # which World classes the handles load: 0 plain/falsy alternating, 1 value-equal
+                                  # worlds, 2 value-equal and value-equal-and-falsy, 3 all plain
+                                  'worlds': st.integers(0, 3)})
 
 
 class Rec(desper.Processor):
@@ -122,6 +126,29 @@ class EmptyLookingWorld(desper.World):
         return False
 
 
+class ValueWorld(desper.World):
+    """a legal World subclass with value semantics (think of levels that are equal when their names are): every
+    instance equals every other one - equal-but-distinct worlds are distinct worlds all the same"""
+
+    def __eq__(self, other):
+        return isinstance(other, ValueWorld)
+
+    def __ne__(self, other):
+        return not isinstance(other, ValueWorld)
+
+    def __hash__(self):
+        return 3
+
+
+class EmptyLookingValueWorld(ValueWorld):
+    def __bool__(self):
+        return False
+
+
+WORLD_KINDS = {0: (desper.World, EmptyLookingWorld), 1: (ValueWorld, ValueWorld),
+               2: (ValueWorld, EmptyLookingValueWorld), 3: (desper.World, desper.World)}
+
+
 class RecWorldHandle(desper.WorldHandle):
     def __init__(self, run, ix):
         super().__init__()
@@ -129,10 +156,11 @@ class RecWorldHandle(desper.WorldHandle):
         self.transform_functions.append(self.populate)
 
     def load(self):
-        if self.ix % 2 == 0:
+        cls = WORLD_KINDS[self.run.case.get('worlds', 0)][self.ix % 2]
+        if cls is desper.World:
             return super().load()
         # same steps as WorldHandle.load, for a World subclass (WorldHandle builds desper.World itself)
-        world = EmptyLookingWorld()
+        world = cls()
         world.dispatch_enabled = False
         for transform_function in self.transform_functions:
             transform_function(self, world)
